@@ -599,6 +599,56 @@ func genBulk(r *rand.Rand) core.Case {
 	return core.Case{Kind: "sync", ID: fmt.Sprintf("bulk-T%d-n%d", tip, len(s.ops)), Ops: s.ops}
 }
 
+// genLong: a long history before the sync. Dozens of peers connect, are given the requests in
+// the window, and go away (disconnect, silence, invalid status) before answering; each cycle
+// resets the waiting requesters. Then one honest peer serves a chain LONGER than the window, so
+// requesters have to be created after all that — which makeRequestersRoutine only does while
+// numPending is below its limit.
+func genLong(r *rand.Rand, cycles int) core.Case {
+	io, ch := newConfig(r, []string{"none", "any"}[r.Intn(2)])
+	tip := ch.ih + 6
+	win := int64(2 + r.Intn(2)) // heights requested before the honest peer shows up
+	s := &script{}
+	s.add("%s", io)
+	for c := 0; c < cycles; c++ {
+		p := 2 + c%7
+		s.add("connect p=%d", p)
+		s.add("status p=%d base=%d height=%d", p, ch.ih, ch.ih+win-1)
+		for k := int64(0); k < win; k++ {
+			s.add("mkreq")
+		}
+		for k := int64(0); k < win; k++ {
+			s.add("pick h=%d p=%d", ch.ih+k, p)
+		}
+		switch r.Intn(3) {
+		case 0:
+			s.add("disconnect p=%d", p)
+		case 1:
+			s.add("timeout p=%d", p)
+		default:
+			s.add("status p=%d base=3 height=1", p)
+		}
+		for k := int64(0); k < win; k++ {
+			if r.Intn(4) == 0 {
+				s.add("rtimeout h=%d", ch.ih+k)
+			} else {
+				s.add("rstep h=%d", ch.ih+k)
+			}
+		}
+		if c%25 == 0 {
+			s.add("show")
+		}
+	}
+	s.add("show")
+	for cur := ch.ih; cur < tip; cur++ {
+		honestRound(s, ch, cur, tip)
+	}
+	s.add("show")
+	s.add("store")
+	s.add("handover")
+	return core.Case{Kind: "sync", ID: fmt.Sprintf("long-T%d-n%d", tip, len(s.ops)), Ops: s.ops}
+}
+
 func genSoup(r *rand.Rand) core.Case {
 	io, ch := newConfig(r, []string{"none", "any", "rotate"}[r.Intn(3)])
 	s := &script{}
@@ -708,6 +758,12 @@ func gen(r *rand.Rand, tier string, emit func(core.Case)) {
 	}
 	for i := 0; i < 40*mul; i++ {
 		emit(genBulk(r))
+	}
+	// long histories: enough cycles that a counter leaking one unit per reset would pass 600
+	emit(genLong(r, 320))
+	emit(genLong(r, 40))
+	for i := 0; i < 2*(mul-1); i++ {
+		emit(genLong(r, 250+r.Intn(150)))
 	}
 	for i := 0; i < 40*mul; i++ {
 		emit(genSync(r, "tip"))
@@ -885,6 +941,28 @@ func oracle(c core.Case, out []string) []core.Finding {
 				}
 			}
 		case "show":
+			{
+				// resource counters against their definition
+				mm := kv("x " + out[i])
+				if pend, err := strconv.Atoi(mm["pending"]); err == nil {
+					waitingReqs, total := 0, 0
+					if mm["reqs"] != "-" && mm["reqs"] != "" {
+						for _, e := range strings.Split(mm["reqs"], ",") {
+							total++
+							if p := strings.Split(e, ":"); len(p) == 3 && p[2] == "-" {
+								waitingReqs++
+							}
+						}
+					}
+					if pend != waitingReqs {
+						fs = append(fs, core.Finding{Fingerprint: "v0.pool.numPending-differs-from-waiting-requesters",
+							Desc: fmt.Sprintf("pool.numPending = %d but %d of %d requesters are without a block: the counter that gates makeRequestersRoutine (maxPendingRequests) drifts (%s)", pend, waitingReqs, total, out[i])})
+					}
+					if total > 600 {
+						fs = append(fs, core.Finding{Fingerprint: "v0.pool.more-requesters-than-maxTotalRequesters", Desc: out[i]})
+					}
+				}
+			}
 			if malSender != "" {
 				mm := kv("x " + out[i])
 				for _, e := range append(strings.Split(mm["peers"], ","), strings.Split(mm["conn"], ",")...) {
